@@ -1,13 +1,13 @@
 """C10 - LLL / HNF: structural clauses (E6 mirroring, E2 exact nearest-integer quotient)."""
-import e6_mirror, e2_float, e14_homog, e25_lllorder
+import e6_mirror, e2_float, e14_homog, e25_lllorder, e26_hnfnorm
 
 LEVEL = 'other'
 EXPLANATION = ('Static analysis of yui_matrix::dense::lll on MIR: (M2) LLLData::{swap, mul_row, add_row_to} and the final row reversal of '
                'the HNF mirror every row operation on the basis into P (same operation) and P^-1 (inverse operation on columns: '
                'swap_cols, mul_col by r^-1, add_col_to(k,i,-r)); (M1) no other code mutates the basis; (E2) no float on any data/control '
                'path of the module, in particular the size-reduction quotient div_round (an inexact quotient beyond 2^53 voids size '
-               'reduction and termination). (E14) every exact update formula of the integral Gram-Schmidt state (swap, add_row_to, size-reduction quotient, Lovasz test) is homogeneous under scaling of the basis - dimensional analysis with deg det[j] = deg lambda[(i,j)] = 2(j+1). Necessary for H = P*A, P*P^-1 = I and for the maintained state being the Gram-Schmidt data on every input. NOT decided: echelon form, Lovasz '
-               'condition, size-reducedness, termination.')
+               'reduction and termination). (E14) every exact update formula of the integral Gram-Schmidt state (swap, add_row_to, size-reduction quotient, Lovasz test) is homogeneous under scaling of the basis - dimensional analysis with deg det[j] = deg lambda[(i,j)] = 2(j+1). Necessary for H = P*A, P*P^-1 = I and for the maintained state being the Gram-Schmidt data on every input. (E25) size reduction runs against the rows in descending order, as the write set of add_row_to forces. (E26) a pivot-normalisation site reaches the last working row. NOT decided: echelon form, Lovasz '
+               'condition, termination.')
 TRUSTED = ['rustc MIR', 'Mat row/column operations implement the named elementary operations']
 
 
@@ -26,4 +26,6 @@ def run(ctx, rep):
     e14_homog.run(facts, rep)
     rep.rule('E25', e25_lllorder.__doc__.strip().split('\n')[0])
     e25_lllorder.run(facts, rep)
+    rep.rule('E26', e26_hnfnorm.__doc__.strip().split('\n')[0])
+    e26_hnfnorm.run(facts, rep)
     e2_float.apply(facts, rep, scope, 'C10', floor_scope=35)
